@@ -84,8 +84,9 @@ def check(ctx, mps):
            'the retry path must not touch toggle, buffer selection or fill counts: %s' % [q.fmt(a) for a in touched])
     # (b) toggle / buffer pairing
     bt = [a for a in ir.drivers('self.buffer_toggle', exact=True)]
-    pid0 = [a for a in ir.assigns if a.lhs.canon() == 'self.data_pid[0:1]']
-    pidw = [a for a in ir.assigns if a.lhs.canon() == 'self.data_pid']
+    pidd = q.merged_drivers(ir, 'self.data_pid')       # both bits written separately under one guard = one whole write
+    pid0 = [a for a in pidd if a.lhs.canon() == 'self.data_pid[0:1]']
+    pidw = [a for a in pidd if a.lhs.canon() == 'self.data_pid']
     for i, a in enumerate(bt):
         twin = [p for p in pid0 if p.state == a.state and q.atoms(p) == q.atoms(a) and p.rhs.canon() == '~self.data_pid[0:1]']
         where = q.state_of(a)
